@@ -20,25 +20,26 @@ VARIABLES l,          \* next trace line
           strays,     \* keys touched by the output that no change mentions / unparsable output
           reported,   \* keys inside messages that were dropped and reported
           eo,         \* first End-of-RIB per family in the output (message index, 0 = none)
+          grown,      \* keys inside messages pushed over the limit by the 2-octet-AS rewriting
           nmsg, lastmsg, tight, done, panic
-tvars == <<l, sess, changes, exp, own, ei, view, strays, reported, eo, nmsg, lastmsg, tight, done, panic>>
+tvars == <<l, sess, changes, exp, own, ei, view, strays, reported, eo, grown, nmsg, lastmsg, tight, done, panic>>
 
-NoMsg  == [sent |-> TRUE, len |-> 0, wd |-> <<>>, ann |-> <<>>, dig |-> "", eor |-> "", err |-> "", perr |-> ""]
-NoSess == [ap |-> [f \in Families |-> FALSE], limit |-> 4096]
+NoMsg  == [sent |-> TRUE, len |-> 0, packed |-> 0, wd |-> <<>>, ann |-> <<>>, dig |-> "", eor |-> "", err |-> "", perr |-> ""]
+NoSess == [ap |-> [f \in Families |-> FALSE], limit |-> 4096, as2 |-> FALSE]
 NoEo   == [f \in Families |-> 0]
 
 Clear == /\ changes' = <<>> /\ exp' = <<>> /\ own' = <<>> /\ ei' = NoEo /\ view' = <<>> /\ strays' = {}
-         /\ reported' = {} /\ eo' = NoEo /\ nmsg' = 0 /\ lastmsg' = NoMsg /\ tight' = FALSE
+         /\ reported' = {} /\ eo' = NoEo /\ grown' = {} /\ nmsg' = 0 /\ lastmsg' = NoMsg /\ tight' = FALSE
          /\ done' = FALSE /\ panic' = ""
 
 TraceInit == /\ l = 1 /\ sess = NoSess /\ changes = <<>> /\ exp = <<>> /\ own = <<>> /\ ei = NoEo /\ view = <<>>
-             /\ strays = {} /\ reported = {} /\ eo = NoEo /\ nmsg = 0 /\ lastmsg = NoMsg
+             /\ strays = {} /\ reported = {} /\ eo = NoEo /\ grown = {} /\ nmsg = 0 /\ lastmsg = NoMsg
              /\ tight = FALSE /\ done = FALSE /\ panic = ""
 
 IsEvent(e) == l <= TLen /\ Trace[l].ev = e /\ l' = l + 1
 
 TReset == /\ IsEvent("Reset")
-          /\ sess' = [ap |-> Trace[l].cfg.ap, limit |-> Trace[l].limit]
+          /\ sess' = [ap |-> Trace[l].cfg.ap, limit |-> Trace[l].limit, as2 |-> Trace[l].cfg.as2]
           /\ Assert(Trace[l].limit = (IF Trace[l].cfg.ext THEN 65535 ELSE 4096),
                     "session limit is not the one of RFC 4271 / RFC 8654")
           /\ Clear
@@ -48,12 +49,16 @@ TPack == /\ IsEvent("Pack")
          /\ LET ch == Trace[l].changes IN
               \* soundness cross-check: the sizes measured on the real bytes are the ones the
               \* RFC framing formulas of PackingDom give (else: conformance gap, not a verdict)
-              /\ \A i \in 1..Len(ch) : MeasuredAgree(sess.ap, ch[i])
+              /\ \A i \in 1..Len(ch) : MeasuredAgree(sess.ap, sess.as2, ch[i])
               /\ changes' = ch
               /\ LET kf == KeyFacts(sess, ch) IN exp' = ExpectedF(ch, kf) /\ own' = OwnF(kf)
               /\ ei' = EorIn(ch)
               /\ view' = InitView(KeySet(sess, ch))
-         /\ UNCHANGED <<sess, strays, reported, eo, nmsg, lastmsg, tight, done, panic>>
+         /\ UNCHANGED <<sess, strays, reported, eo, grown, nmsg, lastmsg, tight, done, panic>>
+
+(* the message fitted as packed and was pushed over the limit by what send() does for a peer
+   without the 4-octet AS capability (AS4_PATH added after packing) - known finding, see below *)
+As2Pushed(m) == sess.as2 /\ ~m.sent /\ m.packed <= sess.limit /\ m.len > sess.limit
 
 TMsg == /\ IsEvent("Msg")
         /\ ~done
@@ -67,6 +72,7 @@ TMsg == /\ IsEvent("Msg")
                     \cup (IF m.perr # "" THEN {<<"unparsable", nmsg + 1, 0, 0>>} ELSE {})
                     \cup (IF m.eor \notin Families \cup {""} THEN {<<m.eor, 0, 0, 0>>} ELSE {})
              /\ reported' = reported \cup (IF m.sent THEN {} ELSE MsgKeys(m))
+             /\ grown' = grown \cup (IF As2Pushed(m) THEN MsgKeys(m) ELSE {})
              /\ eo' = IF m.sent /\ m.eor \in Families /\ eo[m.eor] = 0
                       THEN [eo EXCEPT ![m.eor] = nmsg + 1] ELSE eo
              /\ tight' = (tight \/ ~m.sent \/ m.len > sess.limit - 18)
@@ -89,7 +95,7 @@ TDone == /\ IsEvent("Done")
          /\ done' = TRUE
          /\ panic' = Trace[l].panic
          /\ NoteIf(NonTrivial, Sig)
-         /\ UNCHANGED <<sess, changes, exp, own, ei, view, strays, reported, eo, nmsg, lastmsg, tight>>
+         /\ UNCHANGED <<sess, changes, exp, own, ei, view, strays, reported, eo, grown, nmsg, lastmsg, tight>>
 
 TraceNext == TReset \/ TPack \/ TMsg \/ TDone
 TraceSpec == TraceInit /\ [][TraceNext]_tvars
@@ -147,10 +153,21 @@ C11_EffectNearLimit_KF ==
   Completed => \A k \in DOMAIN exp : NearLimit(sess, exp[k]) =>
      \/ Same(view[k], exp[k])
      \/ (V4NoRoom(sess, changes[exp[k].idx]) /\ view[k].st = "prior")
+     \/ k \in grown
 C11_OversizeSkipped_KF ==
   Completed => \A k \in DOMAIN exp :
      Oversize(sess, exp[k]) => /\ (k \in reported \/ V4NoRoom(sess, changes[exp[k].idx]))
                                /\ ~(view[k].st = "route" /\ view[k].dig = exp[k].dig)
+
+(* KNOWN FINDING KF-C11-as2-growth (= findings_proposed/C08-as2-overflow.md, found by C08): the
+   packer fills messages to the limit computed on the 4-octet form of the attributes; send() then
+   rewrites them for a 2-octet-AS peer, AS4_PATH is added, Serialize refuses the message and all
+   its routes are lost although each fits.  Tolerated: exactly the messages that fitted as packed
+   (As2Pushed) and the keys inside them. *)
+C11_Fits_KF == FitsMsg(sess, own, lastmsg) \/ As2Pushed(lastmsg)
+C11_Effect_KF ==
+  Completed => /\ strays = {}
+               /\ \A k \in DOMAIN exp : Roomy(sess, exp[k]) => (Same(view[k], exp[k]) \/ k \in grown)
 
 (* what TLC prints of a state in a counterexample (the full state holds the whole input list) *)
 Compact == [l |-> l, nmsg |-> nmsg, done |-> done, panic |-> panic, sess |-> sess, strays |-> strays,
